@@ -6,6 +6,9 @@ synchronisation handlers transcribed statement by statement (has_traits.py
 the source text (`Generated/SyncProg.lean`), and equal to `Model.Sync.cascade`
 on every state without armed triggers.
 
+(Since fix 8e10b05 the handlers iterate over a snapshot, skip collected partners
+and release the lock in `finally`: finding F97 is repaired.)
+
 The state is `PyLSync.KWorld`: a `Sync.World` plus armed triggers (`doom`: "when
 trait `p` is notified, drop the last reference to object `o`" — a user handler
 doing `del`), the objects collected so far, the objects the running command
@@ -64,49 +67,35 @@ def fire (k : KWorld α) (p : Pair) : KWorld α :=
 /-- The body of the loop of both handlers for partner `q`:
 ```
 object = object()
+if object is None: continue
 if object_name not in object._get_sync_trait_info()[""]:
     try:    <setattr / list operation on the partner>
     except: pass
 ```
--/
-def visitK (rec : Rec α) (req : Req α) (k : KWorld α) (q : Pair) : KWorld α × Option Exc :=
-  if q.1 ∈ k.dead then (k, some .attributeError)
-  else if q ∈ k.w.locked then (k, none)
+Nothing escapes it. -/
+def visitK (rec : Rec α) (req : Req α) (k : KWorld α) (q : Pair) : KWorld α :=
+  if q.1 ∈ k.dead then k
+  else if q ∈ k.w.locked then k
   else match rec k q req with
-    | .ok (k', _) => (k', none)
-    | .error _ => (k, none)
+    | .ok (k', _) => k'
+    | .error _ => k
 
-/-- `for object, object_name in info[name].values():` on the live dict. -/
-def liveK (body : KWorld α → Pair → KWorld α × Option Exc) (p : Pair) (n0 : Nat) :
-    Nat → Nat → KWorld α → KWorld α × Option Exc
-  | 0, _, k => (k, none)
-  | fuel + 1, i, k =>
-    if (k.w.partners p).length ≠ n0 then (k, some .runtimeError)
-    else match (k.w.partners p)[i]? with
-      | none => (k, none)
-      | some q =>
-        match body k q with
-        | (k1, none) => liveK body p n0 fuel (i + 1) k1
-        | r => r
-
-/-- The shape shared by the two handlers (has_traits.py:2765-2779, 2786-2810):
+/-- The shape shared by the two handlers (has_traits.py, after fix 8e10b05):
 ```
 info = self.__sync_trait__
 if name not in info: return
 locked = info[""]; locked[name] = None
-for object, object_name in info[name].values(): …
-del locked[name]
+try:
+    for object, object_name in list(info[name].values()): …     -- a snapshot
+finally:
+    del locked[name]
 ```
-The exception that escapes (from the loop header, or `del locked[name]`) leaves
-the lock set. -/
+-/
 def handlerK (rec : Rec α) (req : Req α) (k : KWorld α) (p : Pair) : KWorld α × Option Exc :=
   if (k.w.partners p).isEmpty then (k, none)
   else
-    let k1 : KWorld α := { k with w := k.w.lock p }
-    match liveK (visitK rec req) p (k1.w.partners p).length ((k1.w.partners p).length + 1) 0 k1 with
-    | (k2, some e) => (k2, some e)
-    | (k2, none) =>
-      if p ∈ k2.w.locked then ({ k2 with w := k2.w.unlock p }, none) else (k2, some .keyError)
+    let k2 : KWorld α := (k.w.partners p).foldl (visitK rec req) { k with w := k.w.lock p }
+    if p ∈ k2.w.locked then ({ k2 with w := k2.w.unlock p }, none) else (k2, some .keyError)
 
 /-- `_sync_trait_modified(self, object, name, old, new)`. -/
 def handlerModified (rec : Rec α) (k : KWorld α) (p : Pair) (v : AVal α) : KWorld α × Option Exc :=
